@@ -9,6 +9,7 @@ def handle (line : String) : String :=
   | "swt" :: args => Andes.Tds.handleSwt args
   | "tog" :: args => Andes.Events.handleTog args
   | "reg" :: args => Andes.Registry.handleReg args
+  | "uniq" :: args => Andes.Registry.handleUniq args
   | _ => "bad-op"
 
 partial def loop (h : IO.FS.Stream) : IO Unit := do
